@@ -246,11 +246,11 @@ def loop_bounds(q, gb, cfile):
         sf = m.group(1) if m else ""
         info.append((lid, sf))
         hit = None
-        for pat, b in q.unwindset.items():          # source-function tags take precedence over cbmc loop ids
-            if not pat.endswith(".recursion") and sf and re.fullmatch(pat, sf): hit = b; break
-        if hit is None:
-            for pat, b in q.unwindset.items():
-                if not pat.endswith(".recursion") and re.search(pat, lid): hit = b; break
+        for pat, b in q.unwindset.items():          # plain keys: full match on the source-function tag; 'lid:<regex>' keys: search in cbmc's loop id
+            if pat.endswith(".recursion"): continue
+            if pat.startswith("lid:"):
+                if re.search(pat[4:], lid): hit = b; break
+            elif sf and re.fullmatch(pat, sf): hit = b; break
         if hit is not None: sets.append(f"{lid}:{hit}")
     ctext = "\n".join(lines)
     for pat, b in q.unwindset.items():
